@@ -97,6 +97,8 @@ def _probe(model, cfg):
     with torch.no_grad():
         for k in (0, 1):
             outs.append(lifecycle.out_bytes(model(models.probe_input(cfg["model"], cfg["dt"], k))))
+        if cfg["a"]:
+            outs.append(lifecycle.out_bytes(model(models.quantized_probe(cfg["model"], cfg["dt"], cfg["a"]))))
     return outs
 
 
